@@ -25,7 +25,7 @@ ORDER = []
 
 
 class LoopSpec:
-    def __init__(self, invariant=None, havoc=(), variant=None, ghost_pre=None, ghost_post=None, havoc_kinds=None, label=None, instances=None, ghost_init=None):
+    def __init__(self, invariant=None, havoc=(), variant=None, ghost_pre=None, ghost_post=None, havoc_kinds=None, label=None, instances=None, ghost_init=None, yields_kind=None):
         self.invariant = invariant or {}        # {label: lambda}
         self.havoc = list(havoc)                # heap paths written by the loop (locals are found syntactically)
         self.variant = variant                  # lambda -> int term, must decrease and be >= 0
@@ -33,6 +33,7 @@ class LoopSpec:
         self.ghost_post = ghost_post            # fn(ip, frame, env) run at the end of each iteration
         self.havoc_kinds = havoc_kinds or {}
         self.label = label
+        self.yields_kind = yields_kind          # generator functions: kind of the yielded values (the yield list becomes symbolic in the loop)
         self.ghost_init = ghost_init            # fn(ip, frame, env) run once before the invariant is first checked (library-contract instantiations)
         self.instances = instances              # fn(env) -> [ {skolem name: value} ]: further instances of the (universally valid) invariant assumed at the loop head
 
@@ -280,8 +281,11 @@ class _S:
             if c is not None:
                 return bytes([c])
             return Sym(z3.Unit(z3.Int2BV(ops.term(v, 'int'), 8)), 'bytes')
-        t = libspec.pk_fn(code)(ops.term(v, 'int'))
+        x = ops.term(v, 'int')
+        t = libspec.pk_fn(code)(x)
         ops.set_len(t, libspec.FIELD[code][0])
+        # the instantiated axioms of the struct contract for this term (the specification has no path context: queued)
+        ops.XOR8_FACTS.append((t, z3.And(z3.Length(t) == libspec.FIELD[code][0], libspec.upk_fn(code)(t) == x)))
         return Sym(t, 'bytes')
 
     @staticmethod
@@ -289,7 +293,11 @@ class _S:
         from . import libspec
         if code == 'B':
             return Sym(z3.BV2Int(ops.term(b)[0]), 'int')
-        return Sym(libspec.upk_fn(code)(z3.simplify(ops.term(b))), 'int')
+        bt = z3.simplify(ops.term(b))
+        r = libspec.upk_fn(code)(bt)
+        size, lo, hi = libspec.FIELD[code]
+        ops.XOR8_FACTS.append((r, z3.And(r >= lo, r <= hi, z3.Implies(z3.Length(bt) == size, libspec.pk_fn(code)(r) == bt))))
+        return Sym(r, 'int')
 
     @staticmethod
     def slice(b, lo, hi):
